@@ -144,6 +144,37 @@ CLAIMED = {
              "deliberately conservative (it may reject closable molecules, never the converse as far as tested).",
         technique="Lean 4 counting/bijection proof over the generation model + executable closability analysis checked against the implementation",
         ref="7/C06"),
+    "C09": dict(
+        text="Decided by composition, without statistics. Lean 4: C09_stop_interval (with strictly increasing cumulative masses, exactly n units iff the target lies in "
+             "[a_(n-1), a_n)), C09_target_interval_of_run (read off a run of the generation model via C07_stop_rule), C09_block_law_normalised (block probabilities "
+             "F(a_n)-F(a_(n-1)) telescope), C07_one_draw (one independent draw per object), C09_parameters (documented parameter order on the model parser). The check "
+             "feeds a grid of quantiles through a scripted generator into the real generation of linear chains (1-2 blocks) and requires every block size to be the one "
+             "the documented law's closed-form quantile assigns.",
+        note="C09_numeric_partial: that SciPy's draw follows the declared law is tied deterministically to closed-form quantiles (C11's grid), not proved. For laws with atoms "
+             "F(x-) replaces F(x); near-ties of n*unit mass and the quantile (1e-9) accept both neighbours.",
+        technique="Lean 4 proofs (interval characterisation, telescoping) + deterministic quantile-grid check through the real generator",
+        ref="7/C09"),
+    "C10": dict(
+        text="Lean 4 heap model (cells of descriptor fields, deepcopy as fresh allocation, in-place writes): C10_frame (a call that writes only into cells it allocated leaves "
+             "every earlier cell unchanged), C10_history_frame (for every history of such calls every cell of every parsed object keeps its post-parse value), and "
+             "C10_deterministic for the functional generation model. The check replays random histories of 15-40 calls (generate with seeds / with the global generator, "
+             "print, graphs, mirror, elements + caller-side modification, typing, advancing the global generator) on 2-5 objects, digests every mutable field reachable "
+             "from every parsed object after every call, checks descriptor identity, and compares every generate output with a baseline from a fresh interpreter.",
+        note="Trusted: copy.deepcopy yields objects disjoint from the original (CPython). The write discipline of the code is established by the digest / identity check, "
+             "not by a translation of the Python source.",
+        technique="Lean 4 frame / history-invariance proof on a heap model + history replay against a fresh-process baseline",
+        ref="7/C10"),
+    "C11": dict(
+        text="Lean 4 (Mathlib, over Q): C11_interval_nonneg and C11_telescope for an abstract monotone CDF; the Flory-Schulz closed form sum_{k<=n} a^2 k (1-a)^(k-1) = "
+             "1 - (1-a)^n (1 + a n) with non-negativity, monotonicity, < 1 and the exact tail; the uniform law (monotone CDF, support, interval formula). The check feeds "
+             "quantile grids through a scripted generator into draw_mw for six families x parameter regions and compares with closed-form quantiles written from "
+             "scipy.special primitives; interval probabilities against closed-form CDF differences; normalisation; documented means; text round trip; rejection of unknown "
+             "names; the model's parseDist / printDist against the code.",
+        note="C11_numeric_partial: SciPy's binary64 evaluation (cdf, pmf, quantile search) is checked numerically, not proved; gauss / Poisson / gamma normalisation is not "
+             "re-proved here (Mathlib has them; log-normal is not in Mathlib v4.33). Schulz-Zimm uses a density at the integers as mass function: its total differs from 1 by "
+             "the discretisation error, measured per parameter set (bound 2e-2). The draw defect of the pinned tree was repaired (fix: commit).",
+        technique="Lean 4 algebraic proofs (CDF identities) + deterministic quantile / interval grid against closed forms",
+        ref="7/C11"),
 }
 
 NOT_YET = {}
